@@ -200,6 +200,7 @@ def opaque_super_init(ex, e, st):
 
 
 def build(run):
+    event_send.verify_event_init(run)      # Event(..., repeat=, count=) puts a Repeat block in front of the destination
     from edzed.blocklib import sblocks1
     run.verify('Repeat._event', cls='Repeat')
     run.verify('Repeat.init_regular', cls='Repeat')
@@ -230,7 +231,7 @@ def build(run):
     run.scan('queue_writers', all(x.split(':')[1].split('.')[0] in ('Repeat', 'OutputAsync', 'Cron') for x in w), f'{w}')
     run.unclaim("'every interval seconds': the pace rests on the trusted contract of asyncio.wait_for (returns or raises TimeoutError "
                 "after the timeout); no independent timing claim")
-    run.unclaim("Event(..., repeat=...) creating the Repeat implicitly (Event.__init__) and 'nothing is re-sent after the stop' "
+    run.unclaim("'nothing is re-sent after the stop' "
                 "(AddonMainTask.stop_async cancels the task: C08)")
     run.assume('A-C02; events taken from the queue are the dicts put there by _event (queue interface contract)')
     run.trust('asyncio.Queue (FIFO), asyncio.wait_for; set_output (C02), Event.send (C16/C02), utils.time_period (C19)')
